@@ -325,6 +325,9 @@ func (m *modelL2) stepDeposit(x *opchildtypes.MsgFinalizeTokenDeposit, bc blockC
 			hookWd = 1 // the withdrawal the hook itself performed (checked below)
 		}
 		if credited && len(wevs) != hookWd {
+			if hookWd == 1 {
+				return append(out, mm("withdraw.event-count", "hook-withdrawal-not-announced", []string{"C09", "C08", "C04", "C07"}, "deposit %d was credited and its hook performed a withdrawal, but %d initiate_token_withdrawal events were emitted", seq, len(wevs)))
+			}
 			out = append(out, mm("l2deposit.mixed-outcome", "credit-and-refund", own, "deposit %d reports success but also recorded %d refund withdrawal(s)", seq, len(wevs)))
 			return out
 		}
